@@ -148,12 +148,17 @@ structure WireOf (s : Status) (w : List Item) : Prop where
   objectives : objectivesOf w = s.objectives
   players : ∀ id, pairsOf id w = pairsFor s.players id
 
-/-- executable form of `WireOf` (used by the driver): the quantifier ranges over the indexes that occur -/
+/-- the player indexes that occur among the pairs -/
+def idsOf (w : List Item) : List Nat :=
+  w.filterMap fun
+    | .player i _ _ => some i
+    | _ => none
+
+/-- executable form of `WireOf` (used by the driver; `wireOfB_iff` in `Lemmas/GS1Players.lean`): the
+quantifier ranges over the indexes that occur -/
 def wireOfB (s : Status) (w : List Item) : Bool :=
   fieldsOf w == s.fields && objectivesOf w == s.objectives &&
-    ((s.players.map (·.1)) ++ w.filterMap fun
-      | .player i _ _ => some i
-      | _ => none).all fun id => pairsOf id w == pairsFor s.players id
+    ((s.players.map (·.1)) ++ idsOf w).all fun id => pairsOf id w == pairsFor s.players id
 
 /-- `\f₁\f₂…` -/
 def body (fs : List Bytes) : Bytes := fs.flatMap fun f => bsl :: f
